@@ -1,7 +1,7 @@
 """C01 -- compiled programs do what their QBASIC source says.
 Translation validation of each catalogue cell against the reference
 interpreter (vlib/qbref.py), for all values of the symbolic inputs."""
-import props.catalog  # noqa: F401
+import props.catalog_all  # noqa: F401
 from vlib import harness as H
 from vlib.runner import run_property
 from props.common import (cell_obligations, rot, seed, COMMON_ASSUMPTIONS,
